@@ -19,8 +19,8 @@ def _cv(v):
         return ("q", v.f.numerator, v.f.denominator)
     try:
         import numpy as np
-        if isinstance(v, np.generic):
-            v = v.item()
+        if isinstance(v, np.generic) or (isinstance(v, np.ndarray) and v.ndim == 0):
+            v = v.item()          # the harness' hash functions depend on numeric VALUES, not on their container type
     except ImportError:
         pass
     if isinstance(v, bool):
@@ -92,6 +92,7 @@ class Models:
         self.kind, self.names, self.exact, self.clock = kind, list(names), exact, clock
         self.accept_batch = accept_batch
         self.out_type, self.label_keys = out_type, label_keys
+        self.memo = None            # set to {} for a memoising model: the SAME dict object is handed out for equal inputs
 
     def num(self, n, den=7):
         if self.exact:
@@ -128,6 +129,12 @@ class Models:
             for j, n in enumerate(self.names):
                 tot = tot + (j + 1) * x[n]
             return {"output": Q(tot) if self.exact else float(tot)}
+        if k == "phase":          # uninformative (constant) for inputs from the first ~40 observations, informative afterwards:
+            # a model that "becomes informative" later in the stream, expressed as a pure function of the (time-coded) input
+            vals = [v for v in x.values() if isinstance(v, (int, float)) and not isinstance(v, bool)]
+            if not vals or max(vals) < 41000:
+                return {"output": self.num(3)}
+            return {"output": self.num(h("m", c) % 1000)}
         if k == "array1":         # user model returning NumPy arrays of shape (1,) as dict values (e.g. {'output': est.predict(X)})
             import numpy as np
             return {"output": np.array([(h("m", c) % 1000) / 8.0])}
@@ -149,6 +156,11 @@ class Models:
         if self.clock is not None:
             self.clock.tick("model")
             self.clock.log.append(("model", dict(x)))
+        if self.memo is not None and self.kind != "positional":
+            key = canon(x)
+            if key not in self.memo:
+                self.memo[key] = self.one(x)
+            return self.memo[key]          # a library that writes into this dict corrupts the model's later answers
         return self.one(x)
 
 
@@ -170,6 +182,8 @@ class Losses:
             for l, v in p.items():
                 tot = tot + (y - v) * (y - v)
             return tot
+        if self.kind == "zero-one":      # a 0-1 loss returning Python bools
+            return bool(h("l01", _cv(y) if not isinstance(y, str) else y, canon(p)) % 2)
         if self.kind == "sqf":    # squared error returned as a plain float whatever the prediction values are
             import numpy as np
             tot = 0.0
